@@ -8,9 +8,11 @@
    with a separation invariant over table and allocator frames), and with it the main statement
    at the level of raw table memory (C01_raw_memory_walk_is_history_dictated).
    (clean_up calls of any range may occur anywhere in those histories:
-   C01_raw_memory_walk_with_cleanups.)  Partial: for RecursivePageTable (whose accesses go
+   C01_raw_memory_walk_with_cleanups.)  For RecursivePageTable the READ path is proved
+   (C01_recursive_translate_page_reads_the_tree: its walk through the recursive addresses reaches
+   the slot the tree walk reaches).  Partial: for RecursivePageTable's writing operations (whose accesses go
    through recursive addresses), the refinement is checked by the correspondence, not proved. *)
-From X86 Require Import Paging.Mapped Paging.Tree Paging.TreeProofs Paging.Refine Paging.RefineOps Paging.RefineParent Paging.RefineWalk Paging.RefineHistory Paging.RefineClean Paging.RefineHistoryClean Paging.Run.
+From X86 Require Import Paging.Mapped Paging.Tree Paging.TreeProofs Paging.Refine Paging.RefineOps Paging.RefineParent Paging.RefineWalk Paging.RefineHistory Paging.RefineClean Paging.RefineHistoryClean Paging.Recursive Paging.RecResolve Paging.RecRead Paging.Run.
 Open Scope Z_scope.
 
 (* after ANY history from the empty level-4 table, every index path reaches exactly the leaf the
@@ -232,3 +234,13 @@ Theorem C01_raw_memory_walk_with_cleanups : forall rootf allocs ri ops s' outs,
     end.
 Proof. exact memory_walk_is_history_dictated_with_cleanup. Qed.
 Print Assumptions C01_raw_memory_walk_with_cleanups.
+
+(* RecursivePageTable, read path: with the recursive slot pointing to the level-4 table and every
+   other slot of it representing the tree (repx), translate_page -- which reaches every lower
+   table through the recursive addresses p3_page/p2_page/p1_page, resolved by the hardware-style
+   walk -- returns exactly what the tree says, for every page outside the recursive slot *)
+Theorem C01_recursive_translate_page_reads_the_tree : forall s ch k page,
+  0 <= k <= 2 -> 0 <= rec_index s < 512 -> repx (rec_index s) s ch -> p4_index page <> rec_index s ->
+  rtranslate_page s k page = Ok (s, t_translate_page ch (idx_list k page) k).
+Proof. exact rtranslate_page_repx. Qed.
+Print Assumptions C01_recursive_translate_page_reads_the_tree.
